@@ -21,7 +21,7 @@ HEADER = ("From Coq Require Import ZArith List String.\nFrom SV Require Import c
 GUARDS = ["flatten_checks_outer_rest", "flatten_checks_inner_rest", "flatten_checks_operand_ids",
           "plain_let_skips_short_calls", "plain_let_builds_const_list", "prune_if_quote_false_is_false",
           "consteval_checks_rest_is_used", "consteval_checks_surplus_operands", "consteval_emits_value",
-          "consteval_checks_set_idents", "consteval_static_arity"]
+          "consteval_checks_set_idents", "consteval_static_arity", "consteval_operands_outer_scope"]
 
 
 # ----------------------------------------------------------------------------- (G) generated facts
@@ -69,8 +69,8 @@ def source_guards():
     g["consteval_checks_rest_is_used"] = (has(vl, "let rest_is_used = l.rest && l.args .last() .and_then(|x| x.atom_identifier()) "
                                                   ".map(|id| self.bindings.borrow().used_bindings.contains(id)) .unwrap_or(false);")
                                           and has(vl, "&& !self.scope_contains_define && !rest_is_used {"))
-    g["consteval_checks_surplus_operands"] = has(vl, "if l.rest { for arg in args.iter().skip(l.args.len()) { "
-                                                     "if self.to_constant(arg).is_none() { non_constant_arguments.push(arg); } } }")
+    g["consteval_checks_surplus_operands"] = has(vl, "if l.rest { for (index, arg) in args.iter().enumerate().skip(l.args.len()) { "
+                                                     "if !constant_operands[index] { non_constant_arguments.push(arg); } } }")
     g["consteval_emits_value"] = (has(vl, "non_constant_arguments.push(value_expr);")
                                   and not has(vl, "non_constant_arguments.push(output"))
     g["consteval_checks_set_idents"] = has(va, "if self.set_idents.get(s).is_some() || self.expr_level_set_idents.contains(s) { "
@@ -79,6 +79,16 @@ def source_guards():
                                    and has(vl, "if !f.rest { if !f.args.is_empty() { stop!(ArityMismatch =>")
                                    and has(vl, "stop!(ArityMismatch => m; l.location.span);")
                                    and has(vl, "if l.rest && args.len() < l.args.len().saturating_sub(1) {"))
+    vt = _region(ce, "fn visit_let(&mut self, mut l: Box<crate::parser::ast::Let>)", ["fn visit_vector"], limit=40000)
+    decided_outside = ("let constant_operands: Vec<bool> = args .iter() .map(|x| self.to_constant(x).is_some()) .collect(); "
+                       "let parent = Rc::clone(&self.bindings); self.bindings = Rc::new(RefCell::new(new_env));")
+    g["consteval_operands_outer_scope"] = (has(vl, decided_outside) and has(vt, decided_outside)
+                                           and has(vl, "} else if !constant_operands[index] { non_constant_arguments.push(arg); }")
+                                           and has(vl, "for (index, arg) in args.iter().enumerate().skip(l.args.len()) { if !constant_operands[index] {")
+                                           and has(vl, ".zip(constant_operands.iter()) .filter(|x| !*x.1)")
+                                           and has(vt, "} else if !constant_operands[index] {")
+                                           and not has(vl, "self.to_constant(arg).is_none()")
+                                           and not has(vt, "self.to_constant(arg).is_none()"))
     return g
 
 
@@ -183,9 +193,14 @@ class G:
             if r.random() < 0.04:
                 nargs = nfix + 1                      # static ArityMismatch
         args = [self.operand(d, env) for _ in range(nargs)]
+        # a parameter may have the name of a variable of an enclosing scope (the operands are in the OUTER scope and may
+        # name that variable: the shape of defect e50bef37)
+        if nfix > 0 and env and r.random() < 0.2:
+            ps[r.randrange(nfix)] = r.choice(env)
         # numeric parameters may be mentioned (sometimes a parameter is never mentioned)
         fixed = ps[:-1] if rest else ps
-        env2 = env + [p for p, a in zip(fixed, args) if (self.numeric(a) or a[0] not in ("bool", "quote")) and r.random() < 0.8]
+        env2 = [v for v in env if v not in ps] + [p for p, a in zip(fixed, args)
+                                                  if (self.numeric(a) or a[0] not in ("bool", "quote")) and r.random() < 0.8]
         if rest and tail and r.random() < 0.45:
             return ("app", ("lam", ps, rest, ("var", ps[-1]) if r.random() < 0.6 else
                             ("begin", [("prim", "display", [("num", r.randint(1, 9))]), ("var", ps[-1])])), args)
@@ -267,10 +282,10 @@ def datum_coq(d):
     return out
 
 
-def exps_coq(l, bound):
+def exps_coq(l, bound, ast=False):
     out = "ENil"
     for a in reversed(l):
-        out = "(ECons %s %s)" % (to_coq(a, bound), out)
+        out = "(ECons %s %s)" % (to_coq(a, bound, ast), out)
     return out
 
 
@@ -278,8 +293,11 @@ def strs(l):
     return "[" + "; ".join('"%s"' % x for x in l) + "]"
 
 
-def to_coq(t, bound):
-    """The model term; `setp` becomes its assignment-free twin ((lambda (x) ((lambda (x') x') e2)) e1)."""
+def to_coq(t, bound, ast=False):
+    """The model term.  `setp` ((lambda (x) (begin (set! x e2) x)) e1):
+       * ast=False (reference VALUE): its assignment-free twin ((lambda (x) ((lambda (x') x') e2)) e1);
+       * ast=True (what the PASSES see): the assigned identifier is in set_idents, which the model writes SetG / Glob
+         (Passes_Model_C01.v, [cmark]): (Call (Lam [x] (Begin [SetG x e2; Glob x])) [e1])."""
     k = t[0]
     if k == "num":
         return "(Num %d)" % t[1]
@@ -290,16 +308,20 @@ def to_coq(t, bound):
     if k == "var":
         return '(Loc "%s")' % t[1] if t[1] in bound else '(Glob "%s")' % t[1]
     if k == "lam":
-        return "(Lam %s %s %s)" % (strs(t[1]), "true" if t[2] else "false", to_coq(t[3], bound | set(t[1])))
+        return "(Lam %s %s %s)" % (strs(t[1]), "true" if t[2] else "false", to_coq(t[3], bound | set(t[1]), ast))
     if k == "app":
-        return "(Call %s %s)" % (to_coq(t[1], bound), exps_coq(t[2], bound))
+        return "(Call %s %s)" % (to_coq(t[1], bound, ast), exps_coq(t[2], bound, ast))
     if k == "if":
-        return "(If %s %s %s)" % (to_coq(t[1], bound), to_coq(t[2], bound), to_coq(t[3], bound))
+        return "(If %s %s %s)" % (to_coq(t[1], bound, ast), to_coq(t[2], bound, ast), to_coq(t[3], bound, ast))
     if k == "begin":
-        return "(Begin %s)" % exps_coq(t[1], bound)
+        return "(Begin %s)" % exps_coq(t[1], bound, ast)
     if k == "prim":
         op = {"+": "PAdd", "display": "PDisplay", "const-list": "PConstList"}[t[1]]
-        return "(Prim %s %s)" % (op, exps_coq(t[2], bound))
+        return "(Prim %s %s)" % (op, exps_coq(t[2], bound, ast))
+    if k == "setp" and ast:
+        x = t[1]
+        body = '(Begin (ECons (SetG "%s" %s) (ECons (Glob "%s") ENil)))' % (x, to_coq(t[3], bound | {x}, ast), x)
+        return '(Call (Lam ["%s"] false %s) (ECons %s ENil))' % (x, body, to_coq(t[2], bound, ast))
     if k == "setp":
         x = t[1]
         inner = '(Call (Lam ["%s_"] false (Loc "%s_")) (ECons %s ENil))' % (x, x, to_coq(t[3], bound | {x}))
@@ -464,6 +486,13 @@ WITNESSES = [
     ("F41 non-constant later surplus operand", "(define (f k) ((lambda (a . r) (car r)) 1 2 k)) (f 5)", "2", ""),
     ("F41b effect in a later surplus operand", "((lambda (a . r) 1) 1 2 (begin (display 7) 3))", "1", "7"),
     ("set! of a parameter bound to a constant", "((lambda (a) (begin (set! a 2) a)) 1)", "2", ""),
+    # e50bef37: operands were judged in the scope of the applied lambda / let
+    ("operand naming an outer variable shadowed by a constant parameter", "(define (f x) ((lambda (x y) y) 5 x)) (f 7)", "7", ""),
+    ("let right-hand side naming an outer variable shadowed by a constant binder", "(define (f x) (let ((x 5) (y x)) y)) (f 7)", "7", ""),
+    ("shadowed operand with an effect in the body", "(define (f x) ((lambda (x y) (begin (display y) x)) 5 x)) (f 7)", "5", "7"),
+    ("duplicate parameter, constant first", "(define (f k) ((lambda (a a) a) 1 k)) (f 7)", "7", ""),
+    ("duplicate parameter, constant last", "(define (f k) ((lambda (a a) a) k 1)) (f 7)", "1", ""),
+    ("duplicate let binder", "(define (f k) (let ((a 1) (a k)) a)) (f 7)", "7", ""),
 ]
 
 
@@ -524,12 +553,12 @@ def run_passes(ck):
     bound = set(PARAMS)
     exprs = []
     for p in progs:
-        body = to_coq(p, bound)
-        lam = "(Lam %s false %s)" % (strs(PARAMS), body)
+        lam = "(Lam %s false %s)" % (strs(PARAMS), to_coq(p, bound))
+        lam_ast = "(Lam %s false %s)" % (strs(PARAMS), to_coq(p, bound, ast=True)) if contains(p, "setp") else lam
         exprs.append("(pipeline_str src_guards %s ++ (if static_arity (ceval src_guards %s) then \"\" else \" !SA\") ++ \" @@ \" ++ "
-                     "render_res (eval 60 (ENone, []) ENone (Call %s %s)))%%string" % (lam, lam, lam, ACTUALS_COQ))
+                     "render_res (eval 60 (ENone, []) ENone (Call %s %s)))%%string" % (lam_ast, lam_ast, lam, ACTUALS_COQ))
     mod = ck.coq_eval(HEADER, exprs, shard=20)
-    st = {"compared_ast": 0, "agreed_ast": 0, "skipped_unmodelled": 0, "static_arity": 0, "compared_value": 0, "agreed_value": 0}
+    st = {"compared_ast": 0, "agreed_ast": 0, "skipped_unmodelled": 0, "static_arity": 0, "compared_value": 0, "agreed_value": 0, "skipped_why": {}}
     distinct = set()
     for p, d, nm, line, e, m in zip(progs, defs, names, lines, eng, mod):
         ck.cov["evaluations"] += 1
@@ -573,14 +602,18 @@ def run_passes(ck):
             ck.failing_input("passes: value/output of a generated program differs from the reference evaluator", case, tag="passes-val")
             continue
         # ---- AST
-        if contains(p, "setp"):
-            # local assignment is outside the model language: assert only that the assigned parameter keeps its binding
+        why = None
+        if not line.startswith("AST"):
+            why = "engine rejected the program"
+        elif "lifted" in line or "(define " in line[5:].replace("(define " + nm, "", 1):
+            why = "a closed lambda lifted to a global (LiftPureFunctionsToGlobalScope, property C02)"
+        elif "#%box" in line:
+            why = "assigned variable captured by a lambda: boxed (assignment conversion, Properties_C01)"
+        if why:
             st["skipped_unmodelled"] += 1
-            if line.startswith("AST") and line.count("(set! ") != sum(1 for _ in re.finditer(r"\(set! ", d)):
-                pass
-            continue
-        if not line.startswith("AST") or "lifted" in line or "#%box" in line or "(define " in line[5:].replace("(define " + nm, "", 1):
-            st["skipped_unmodelled"] += 1
+            st["skipped_why"][why] = st["skipped_why"].get(why, 0) + 1
+            if os.environ.get("C01P_DEBUG"):
+                print("SKIP", why, "\n   ", d, "\n   ", line[:300])
             continue
         try:
             east = canon_ast(line[4:])
@@ -589,6 +622,7 @@ def run_passes(ck):
             mcan = canon_ast(mast)
         except Exception as ex:      # an engine form the reader does not know
             st["skipped_unmodelled"] += 1
+            st["skipped_why"]["reader"] = st["skipped_why"].get("reader", 0) + 1
             continue
         st["compared_ast"] += 1
         if east == mcan:
